@@ -404,8 +404,10 @@ func lateJoiner(t *tr.Trace, r *tr.Rand) {
 // or a `replace` naming somebody else's stream, break label_identity,
 // close_only_when and teardown: the theorems assume unique ids (the reference
 // client draws 128 random bits).  These histories run through the model (which
-// transcribes the code: model and implementation agree) and record what
-// happens as notes; the monitors skip collided ids.
+// transcribes the code: model and implementation agree); what happens is
+// inside the property's quantifier (clients choose their ids), so it is
+// reported as monitor failures, which KNOWN_FINDINGS.txt lists as F27 and F28;
+// the general monitors skip collided ids.
 func collisions(t *tr.Trace, r *tr.Rand) {
 	// a second publisher offers the id of the first publisher's stream
 	corpusRun(t, r, "collision-same-id", 3, func(h *hist) {
@@ -422,7 +424,7 @@ func collisions(t *tr.Trace, r *tr.Rand) {
 		h.timer(u)
 		h.quiesce()
 		if held == 1 && len(m.c.DownIds()) == 0 {
-			h.note("collision: another publisher's offer with the same id closed the subscriber's stream")
+			h.fail("close_only_when", "stream-id-collision: another publisher's offer with the same id closed the subscriber's stream of the first publisher")
 		}
 	})
 	corpusRun(t, r, "collision-spliced-tracks", 3, func(h *hist) {
@@ -439,7 +441,7 @@ func collisions(t *tr.Trace, r *tr.Rand) {
 		for _, d := range m.c.VerifDowns() {
 			for _, i := range d.TrackIdx {
 				if i < 0 && d.RemoteOwner == "c0" {
-					h.note("collision: a track of publisher c1 is carried by the down stream labelled with publisher c0")
+					h.fail("label_identity", "stream-id-collision: a track of publisher c1 is carried by the down stream labelled with publisher c0")
 				}
 			}
 		}
@@ -458,7 +460,7 @@ func collisions(t *tr.Trace, r *tr.Rand) {
 		h.timer(u)
 		h.quiesce()
 		if len(m.c.DownIds()) == 0 && len(p1.c.UpIds()) == 1 {
-			h.note("collision: a foreign `replace` closed the subscriber's stream although the publisher still sends it")
+			h.fail("close_only_when", "stream-id-collision: a foreign `replace` closed the subscriber's stream although its publisher still sends it")
 		}
 	})
 	// a subscriber that itself publishes the id it is pushed is disconnected
@@ -474,7 +476,7 @@ func collisions(t *tr.Trace, r *tr.Rand) {
 		h.establish(p, 1, 0, 0, av)
 		h.quiesce()
 		if m.c.Dead {
-			h.note("collision: a subscriber publishing the same id was disconnected by the push (adding duplicate connection)")
+			h.fail("close_only_when", "stream-id-collision: a subscriber publishing the same id was disconnected by the push (adding duplicate connection)")
 		}
 	})
 	// `replace` on a second offer of an EXISTING stream is never pushed
@@ -491,7 +493,7 @@ func collisions(t *tr.Trace, r *tr.Rand) {
 		h.offer(p, 1, 0, 2, "g") // renegotiation of stream 1 carrying replace=2
 		h.quiesce()
 		if has(m.c.DownIds(), "s2") {
-			h.note("replace-on-existing: the subscriber keeps the replaced stream until the next push")
+			h.fail("teardown", "replace-on-existing: `replace` sent with a second offer of an existing stream never reaches the subscribers, who keep the replaced stream")
 		}
 	})
 	for i := 0; i < 6; i++ {
